@@ -62,7 +62,7 @@ class CapFlow(Flow):
         for b, blk in func.blocks.items():
             if blk.get("tc") is None:
                 continue
-            cond = func.nodes.get(blk["tc"])
+            cond = branch_cond(func, blk)
             for truth in (True, False):
                 for atom, t in edge_facts(cond, truth):
                     l, op, r = rel(atom, t)
